@@ -846,6 +846,16 @@ func (e *Env) evalCall(x ECall) (tval, error) {
 			return tval{}, fmt.Errorf("fresh outside a postcondition")
 		}
 		return tval{T: boolT, C: []string{app(">=", v.C[0], e.old.brk)}}, nil
+	case "allocated":
+		// allocated(p): the object p points into exists in the current state (every reachable Go pointer does)
+		v, err := e.eval(x.Args[0])
+		if err != nil {
+			return tval{}, err
+		}
+		if _, ok := refElem(v.T); !ok {
+			return tval{}, fmt.Errorf("allocated of a non-reference value")
+		}
+		return tval{T: boolT, C: []string{app("<", v.C[0], e.st.brk)}}, nil
 	case "alloc":
 		// alloc(p): identity of the allocation a pointer/slice points into
 		v, err := e.eval(x.Args[0])
